@@ -16,6 +16,7 @@ func main() {
 	tier := flag.String("tier", "", "quick | thorough")
 	repo := flag.String("repo", "", "repository under verification (default $VERIF_REPO or /repo)")
 	verif := flag.String("verif", "", "verification directory (default: parent of the binary's directory)")
+	out := flag.String("out", os.Getenv("VERIF_OUT"), "directory for evidence/, replay/ and work/ (default: the verification directory; used by the self-test so that runs on mutated copies do not overwrite evidence)")
 	only := flag.String("only", "", "restrict to obligations whose name contains this string (debugging; never used by registered checks)")
 	flag.Parse()
 	if *repo == "" {
@@ -40,7 +41,10 @@ func main() {
 		os.Exit(2)
 	}
 	run := newRun(*prop, *tier, *verif, *repo, seed)
-	os.RemoveAll(filepath.Join(*verif, "work", *prop))
+	if *out != "" {
+		run.Out = *out
+	}
+	os.RemoveAll(filepath.Join(run.Out, "work", *prop))
 	ld, err := Load(*repo, *verif, []string{"./..."})
 	if err != nil {
 		fmt.Println("ENGINE: cannot load the working tree:", err)
